@@ -13,8 +13,8 @@ TEXT = {
          "The parser's entry-level faithfulness against a jfilter spec and the re-parse lemma are not yet stated: see coverage.not_decided."),
  'C08': ("The escaping used for the canonical serialisation is pinned character class by character class: json_escape == escape spec (\\b \\t \\n \\f \\r \\\" \\\\, other controls as \\u00xx lower-case, everything else verbatim) and is_safe_char == the safe set for all 2^32 code points.",
          "verify/sign_new composition and the cryptographic primitives are not under contract: see coverage.not_decided."),
- 'C03': ("Every parsing function of pocket-types reachable from the entry points (UTF-8 decode/encode, JSON string unescape, lexer, hex readers, tags/content readers, parse_json_event, parse_json_filter) is verified by Verus with NO precondition on input bytes or buffer length at the entry points: all index/slice bounds, arithmetic overflow, shifts, panic!/unwrap unreachability and termination obligations are discharged for all inputs and all loop iterations, plus consumed <= input length and structural postconditions (event length field within the buffer, padding zero).",
-         "Stack depth of the recursive burn_* family is not modelled; 'successful result is well-formed' is proved for the length fields and bounds (wf_event/wf_tags of JSON results is stage 2, see not_decided in the evidence)."),
+ 'C03': ("Every parsing function of pocket-types reachable from the entry points (UTF-8 decode/encode, JSON string unescape, lexer, hex readers, tags/content readers, parse_json_event, parse_json_filter) is verified by Verus with NO precondition on input bytes or buffer length at the entry points: all index/slice bounds, arithmetic overflow, shifts, panic!/unwrap unreachability and termination obligations are discharged for all inputs and all loop iterations, plus consumed <= input length. A successful Event::from_json / Tags::from_json / Filter::from_json result is proved structurally well-formed (wf_event / wf_tags / wf_filter: every stored length and offset in bounds, sections chained exactly), and every accessor, iterator and the match predicate are proved total under exactly that well-formedness; hex decoders (ids, pubkeys, signatures, HLL registers) and address parsing are total and functionally specified.",
+         "Stack depth of the recursive burn_* family is not modelled. Serializers are proved total under an additional renderability condition on the strings (escapable), which is not yet derived for JSON-parsed values."),
  'C04': ("EventStore::store_event/get_event_by_offset/new are verified against a trusted contract of mmap-append/File/AtomicUsize: an event is appended at a fresh aligned offset at or beyond the old end marker, bytes below the old end are never touched, the grow-and-retry loop terminates, the cached file length equals the mapping length, and an offset at which an event was stored reads back exactly its bytes; Store::store_event's contract lifts this to the store (events map only grows by the new event).", "mmap-append, the kernel and the file system are trusted by contract; reopen = persistence assumption."),
  'C06': ("Filter::event_matches is proved equal to nip01_matches (a transcription of the property statement) for every well-formed filter and event; it never errors or panics. Callee contracts (Tags::matches, get_string, the id/author/kind iterators, Event accessors) are proved against the packed-layout views.", "Event::id/pubkey/sig by-value accessors are used by contract (slice->array conversion is std)."),
  'C09': ("Store::store_event contract over the trusted LMDB contract: for replaceable kinds an akc entry of the (author, kind) range outside the '<= created_at' sub-range forces an error, and after a successful store the new event's key is the ONLY entry of that range; remove_replaceable / remove_parameterized_replaceable remove exactly the keys of the events their committed range scan finds (whole-table postconditions); find_*_inner return the first (matching-kind) entry or None iff none; the range constructors pin exact key bounds; key builders equal the documented layouts; Kind classification equals the NIP-01 ranges.", "LMDB/heed by assumed contract (finite maps, snapshot reads, ordered ranges, atomic commit). The byte-order meaning of the key ranges (entries = events with since <= t <= until) and the parameterized-kind uniqueness clause are not yet discharged: see not_decided."),
